@@ -32,6 +32,15 @@ PROPS = {
 }
 
 
+
+def _line(path, n):
+    """the n-th (0-based) JSON line of a case file"""
+    with open(path) as fh:
+        for i, l in enumerate(fh):
+            if i == n:
+                return json.loads(l)
+    return None
+
 def run(pid, tier, replay=None):
     t0 = time.time()
     P = PROPS[pid]
@@ -39,6 +48,15 @@ def run(pid, tier, replay=None):
     binary = vf.build_driver("metamorph")
     race_binary = vf.build_driver("metamorph", race=True) if P["race"] else None
     verdict = vf.Verdict(pid)
+    if replay:
+        rep = json.load(open(replay))
+        casefile = os.path.join(wd, "replay_cases.jsonl")
+        vf.jsonl_write(casefile, [e["case"]["abstract"] for e in rep["examples"] if "abstract" in e.get("case", {})])
+        rc, out, err = vf.run_driver(binary, [P["mode"]], stdin_path=casefile, timeout=600)
+        bad = [l for l in out.splitlines() if l.strip() and not json.loads(l)["class"].startswith("HARNESS:parser-rejects")]
+        for l in bad:
+            print("REPLAY-MISMATCH", l[:400])
+        return 1 if bad else 0
     if pid == "C09":
         runs = [("exh", 1 if tier == "quick" else 2, 0, None), ("sim", 12, 4, 40 if tier == "quick" else 600)]
     else:
@@ -83,7 +101,7 @@ def run(pid, tier, replay=None):
             m = json.loads(line)
             if m["class"].startswith("HARNESS:"):
                 raise vf.MachineryError("generator bug: %s %s: %s" % (m["class"], m["key"], m["detail"][:1500]))
-            verdict.disagree(m["class"], {"case": m["key"]}, m["detail"])
+            verdict.disagree(m["class"], {"case": m["key"], "abstract": _line(casefile, m["n"])}, m["detail"])
         for l in err.splitlines():
             if l.startswith("STATS"):
                 for kv in l.split()[1:]:
